@@ -49,12 +49,20 @@ def replay_dir():
     return d
 
 
-def sh(cmd, timeout=None, cwd=None, env=None, check=False):
+def child_limits():
+    """For processes that run the code under test: no core dumps, address space capped at 4 GiB (an absurd allocation
+    fails fast instead of being satisfied lazily)."""
+    import resource
+    resource.setrlimit(resource.RLIMIT_CORE, (0, 0))
+    resource.setrlimit(resource.RLIMIT_AS, (4 << 30, 4 << 30))
+
+
+def sh(cmd, timeout=None, cwd=None, env=None, check=False, limits=False):
     e = dict(os.environ)
     if env:
         e.update(env)
     p = subprocess.run(cmd, cwd=cwd, env=e, timeout=timeout, stdout=subprocess.PIPE,
-                       stderr=subprocess.STDOUT, text=True, errors="replace")
+                       stderr=subprocess.STDOUT, text=True, errors="replace", preexec_fn=child_limits if limits else None)
     if check and p.returncode != 0:
         raise ToolError("command failed (%d): %s\n%s" % (p.returncode, " ".join(cmd), p.stdout[-4000:]))
     return p.returncode, p.stdout
@@ -79,7 +87,7 @@ def build_harness():
 
 def vh(args, timeout=1800, allow_fail=False):
     build_harness()
-    rc, out = sh([VH] + args, timeout=timeout)
+    rc, out = sh([VH] + args, timeout=timeout, limits=True)
     if rc != 0 and not allow_fail:
         raise ToolError("vh %s failed (%d):\n%s" % (" ".join(args[:3]), rc, out[-4000:]))
     return rc, out
@@ -208,8 +216,18 @@ class TvResult:
             self.tool_problem = res.out[-3000:]
 
 
+def sanitize_trace(trace_file):
+    """A process killed in the middle of a write leaves a partial last line: drop it."""
+    data = open(trace_file, "rb").read()
+    if data and not data.endswith(b"}\n"):
+        cut = data.rfind(b"}\n")
+        with open(trace_file, "wb") as f:
+            f.write(data[:cut + 2] if cut >= 0 else b"")
+
+
 def validate_trace(trace_tla, cfg, trace_file, timeout=900, strict=None, heap="4g", extra_env=None):
     """Trace validation: is trace_file a behaviour of trace_tla? (single worker, DFS queue)"""
+    sanitize_trace(trace_file)
     env = {"TRACE": trace_file}
     if extra_env:
         env.update(extra_env)
